@@ -216,7 +216,7 @@ func judgeGenCases(c *core.Ctx, bin string, cases []GenCase, must bool, mine fun
 		i   int
 	}
 	var jobs []job
-	fb := FirstBad(st)
+	fb := FirstBad(st, mine)
 	runs := make([]string, 0, len(fb))
 	for r := range fb {
 		runs = append(runs, r)
